@@ -12,7 +12,9 @@ len()/as_slice().len() == len, as_slice().as_ptr() % 64 == 0, every byte zero, a
 allocated_size()*size_of::<T>() a multiple of 64, a position pattern written through as_mut_slice is read back \
 through as_slice and Deref, copy_from_slice round trip, as_mut_ptr == as_slice().as_ptr(), clone is deep (same \
 len/contents/alignment, distinct storage, mutating either side leaves the other unchanged), and so is \
-Clone::clone_from into targets of length 0, len/2, len, len+1, 2*len+65. Plus, per type, lengths of 2^63 bytes and \
+Clone::clone_from into targets of length 0, len/2, len, len+1, 2*len+65; the allocator block the storage lies in (harness allocator registry) \
+covers allocated_size()*size_of::<T>() bytes from the view's start; a buffer filled up to its capacity through as_mut_ptr and dropped \
+leaves nothing behind in the next buffer of the same chunk count. Plus, per type, lengths of 2^63 bytes and \
 more (usize::MAX, usize::MAX/size_of T + k, ...): zeroed must panic or report allocated_size() >= len (no view is formed). distinct = hash set \
 over (T, len); non-trivial = len > 0.";
 
@@ -126,6 +128,24 @@ fn protocol<X: BElem>(len: usize) -> Verdict {
     let r = mem::catch(|| -> Verdict {
         let size = std::mem::size_of::<X>();
         let mut buf: AlignedBuffer<X> = unsafe { AlignedBuffer::<X>::zeroed(len) };
+        // which allocator block is the buffer's storage in, and does that block cover the reported capacity? (asked of the
+        // harness' own allocator registry, not of the library; storage that does not come from the allocator is not judged)
+        {
+            let p0 = buf.as_slice().as_ptr() as usize;
+            if let Some((base, bsize)) = crate::block_containing(p0) {
+                let need = (buf.allocated_size() as u128) * (size as u128);
+                if (p0 - base) as u128 + need > bsize as u128 {
+                    return bad(
+                        "alloc",
+                        format!(
+                            "the allocator block behind the buffer covers the reported capacity: {} * {size} = {need} bytes from the view's start",
+                            buf.allocated_size()
+                        ),
+                        format!("the block is {bsize} bytes long and the view starts {} bytes into it", p0 - base),
+                    );
+                }
+            }
+        }
         if buf.len() != len {
             return bad("len", format!("len() == {len}"), format!("{}", buf.len()));
         }
@@ -302,6 +322,28 @@ fn protocol<X: BElem>(len: usize) -> Verdict {
                     format!("source[{i}] unchanged after mutating the clone_from target"),
                     format!("{:?}", buf.as_slice()[i]),
                 );
+            }
+        }
+        // the slack between len and allocated_size() is storage of the buffer: fill it through the raw pointer, drop the buffer,
+        // and a new buffer of the same chunk count but greater length must still read as zeros (no recycled contents)
+        {
+            let mut s1: AlignedBuffer<X> = unsafe { AlignedBuffer::<X>::zeroed(len) };
+            let cap = s1.allocated_size();
+            let p1 = s1.as_mut_ptr();
+            for i in 0..cap {
+                unsafe { p1.add(i).write(X::pat(i, 6)) };
+            }
+            drop(s1);
+            if cap > 0 {
+                let s2: AlignedBuffer<X> = unsafe { AlignedBuffer::<X>::zeroed(cap - 1) };
+                let b2 = unsafe { std::slice::from_raw_parts(s2.as_slice().as_ptr() as *const u8, (cap - 1) * size) };
+                if let Some(i) = b2.iter().position(|b| *b != 0) {
+                    return bad(
+                        "zero",
+                        format!("zeroed({}) after a buffer of the same chunk count (zeroed({len}), filled up to its capacity, dropped) is all zero", cap - 1),
+                        format!("byte {i} = {:#04x}", b2[i]),
+                    );
+                }
             }
         }
         // the slack up to allocated_size must be addressable storage owned by the buffer:
